@@ -88,8 +88,19 @@ func VC20_ClientTransport() {
 		m := c20Msg(i)
 		b, _ := m.Bytes()
 		dialsBefore := totalDials()
+		callsBefore := map[*fakenet.TCPConn]int{}
+		for _, c := range fakenet.Conns {
+			callsBefore[c] = c.WriteCalls
+		}
 		err := fct.Send(m)
 		k, where := occurrences(string(b))
+		if working != nil {
+			for _, c := range fakenet.Conns {
+				if c != working {
+					rt.Assert(c.WriteCalls == callsBefore[c], "later messages go straight to the working path: no further attempt on a connection that failed")
+				}
+			}
+		}
 		if healthyPath {
 			rt.Assert(err == nil, "a working path exists: the send succeeds")
 		} else {
